@@ -395,7 +395,7 @@ type Fault struct {
 }
 
 func genFaults(t *rapid.T, count int) []Fault {
-	regions := []string{"data", "data", "data", "bloom", "bloom", "bloom", "index", "index", "footer", "footer", "any"}
+	regions := []string{"data", "data", "data", "bloom", "bloom", "bloom", "index", "index", "footer", "footer", "any", "blocktail", "blocktail", "blocktail"}
 	var fs []Fault
 	for i := 0; i < count; i++ {
 		f := Fault{
